@@ -105,10 +105,16 @@ func blockLevelLayoutSwitch(context *layoutContext, box_ bo.BlockLevelBoxITF, bo
 	} else if bo.FlexT.IsInstance(box_) {
 		box_, layout := flexLayout(context, box_, bottomSpace, skipStack, containingBlock,
 			pageIsEmpty, absoluteBoxes, fixedBoxes)
+		if box_ == nil { // nothing fits on this page
+			return nil, layout, -1
+		}
 		return box_.(bo.BlockLevelBoxITF), layout, -1 // flexLayout is type stable
 	} else if bo.GridT.IsInstance(box_) {
 		box_, layout := gridLayout(context, box_, bottomSpace, skipStack, containingBlock,
 			pageIsEmpty, absoluteBoxes, fixedBoxes)
+		if box_ == nil { // nothing fits on this page
+			return nil, layout, -1
+		}
 		return box_.(bo.BlockLevelBoxITF), layout, -1 // gridLayout is type stable
 	} else {
 		panic(fmt.Sprintf("Layout for %s not handled yet", box_))
